@@ -32,6 +32,7 @@ type EntryCfg struct {
 	ThoroughParams   map[string]int `json:"thorough_params"`
 	Note             string         `json:"note"`
 	MaxPaths         int            `json:"max_paths"`
+	Solver           string         `json:"solver"` // overrides the check's solver for this entry
 }
 
 type CheckCfg struct {
@@ -451,7 +452,11 @@ func (e *Engine) explore(ent *EntryCfg, deadline time.Time) *EntryResult {
 						solver.Close()
 					}
 					var err error
-					solver, err = NewSolver(e.cfg.Solver, time.Duration(e.cfg.QueryTimeoutMs)*time.Millisecond, logPath)
+					kind := e.cfg.Solver
+				if ent.Solver != "" && solverOverride == "" {
+					kind = ent.Solver
+				}
+				solver, err = NewSolver(kind, time.Duration(e.cfg.QueryTimeoutMs)*time.Millisecond, logPath)
 					if err != nil {
 						mu.Lock()
 						res.Inconclusive = append(res.Inconclusive, "cannot start solver: "+err.Error())
